@@ -9,11 +9,17 @@ def _unescape(s):
     return s.replace('\\"', '"').replace('\\\\', '\\')
 
 
-def parse_witnesses(text):
+def parse_witnesses(text, limit=None, rng=None):
+    """all witness lines, or a seeded sample of `limit` of them (sampled BEFORE the JSON is decoded)"""
+    raw = [m.group(1) for m in _W.finditer(text)]
+    total = len(raw)
+    if limit is not None and total > limit:
+        raw = rng.sample(raw, limit)
     out, bad = [], 0
-    for m in _W.finditer(text):
+    for r in raw:
         try:
-            out.append(json.loads(_unescape(m.group(1))))
+            out.append(json.loads(_unescape(r)))
         except ValueError:
             bad += 1
+    parse_witnesses.total = total
     return out, bad
